@@ -377,12 +377,12 @@ type world struct {
 	q2Mem   sorted.KeyValue // twin handler's queue
 	// otherMem: the second write backend of the replica in front of the source (scenario.Via)
 	otherMem *memory.Storage
-	live    *liveKV         // qMem when the queue is a file-backed KV that is closed and re-opened at every restart
-	dir     string          // scratch directory of the file-backed queue
-	eff     *effLog
-	incs    []*incarnation
-	bmu     sync.Mutex
-	blobs   map[string]sto.Blob // every blob ever uploaded, by ref string
+	live     *liveKV // qMem when the queue is a file-backed KV that is closed and re-opened at every restart
+	dir      string  // scratch directory of the file-backed queue
+	eff      *effLog
+	incs     []*incarnation
+	bmu      sync.Mutex
+	blobs    map[string]sto.Blob // every blob ever uploaded, by ref string
 }
 
 func (w *world) blobOf(ref string) (sto.Blob, bool) {
@@ -404,7 +404,7 @@ type incarnation struct {
 	sh2      *server.SyncHandler // twin: a second handler on the same source object (own destination and queue)
 	// front: where the client uploads (scenario.Via); nil = the source itself
 	front blobserver.BlobReceiver
-	err      error               // constructor error
+	err   error // constructor error
 	// harnessErr: err is not the handler's refusal but a failure of the harness' own set-up
 	harnessErr bool
 	starter    int // id of the goroutine that ran the constructor (parent of the handler's goroutines)
